@@ -239,3 +239,15 @@ Section Proofs.
   Qed.
 
 End Proofs.
+
+(* the constructors refuse exactly the combination "custom converter AND one of the two switches given" *)
+Lemma resolve_options_refuses : forall custom a b da db,
+  resolve_options custom a b da db = None <-> custom = true /\ (a <> None \/ b <> None).
+Proof.
+  intros [|] [x|] [y|] da db; unfold resolve_options; simpl; split; intros H; try discriminate; try reflexivity;
+    try (split; [reflexivity|]; try (left; discriminate); right; discriminate);
+    destruct H as [H1 [H2|H2]]; try discriminate; exfalso; apply H2; reflexivity.
+Qed.
+
+Lemma resolve_options_defaults : forall da db, resolve_options false None None da db = Some (false, da, db).
+Proof. reflexivity. Qed.
